@@ -451,12 +451,13 @@ theorem rpcForm2_accept_safe {rh expUH h : Nat} {fc : Rev} {st : Settings} {rec 
     fc.wStart < rh ∧ (∀ cl ∈ contractClauses fc h st 0 rec.locked, cl.2 = true) ∧ formRecorded fc st = some rec := by
   unfold rpcForm2 rpcForm2Body at hh
   res_ok' at hh
-  obtain ⟨_, hrh, c, hc, _, rfl⟩ := hh
+  obtain ⟨_, hrh, _, c, hc, _, rfl⟩ := hh
   have := formation_accept_safe hc
   exact ⟨hrh, this.1, this.2.1⟩
 
 theorem rpcForm2_no_panic (rh expUH h : Nat) (fc : Rev) (st : Settings) : NoPanic (rpcForm2 rh fc expUH h st sg) := by
   unfold rpcForm2 rpcForm2Body
+  refine NoPanic.bind (check_noPanic _ _) fun _ _ => ?_
   refine NoPanic.bind (check_noPanic _ _) fun _ _ => ?_
   refine NoPanic.bind (check_noPanic _ _) fun _ _ => ?_
   refine NoPanic.bind (formation_no_panic _ _ _ _) fun _ _ => ?_
@@ -475,7 +476,7 @@ theorem rpcRenew2_accept_safe {fx : Bool} {rh expUH h : Nat} {e r : Rev} {fv : L
     r.filesize = e.filesize ∧ r.root = e.root ∧ e.wEnd ≤ r.wEnd := by
   unfold rpcRenew2 rpcRenew2Body at hh
   res_ok' at hh
-  obtain ⟨_, _, hrh, clearing, hclr, evr, _, fp, hfp, ⟨b1, b2⟩, hbase, ⟨a, b, c⟩, hval, storage, ⟨hsub, rfl⟩, _, _, tot, _, rfl⟩ := hh
+  obtain ⟨_, _, hrh, _, clearing, hclr, evr, _, fp, hfp, ⟨b1, b2⟩, hbase, ⟨a, b, c⟩, hval, storage, ⟨hsub, rfl⟩, _, _, tot, _, rfl⟩ := hh
   obtain ⟨rfl, rfl⟩ := renewBase_ok hbase
   obtain ⟨vh, mh, void, sf, hle, hburn, hvoid, hb, hmc, rfl, rfl, rfl⟩ := validateRenewal2_ok hval
   obtain ⟨x, y, r1, r2, hv, hm⟩ := sf.shape
@@ -505,7 +506,7 @@ theorem rpcRenew2_window_partial {fx : Bool} {rh expUH h : Nat} {e r : Rev} {fv 
     h + st.windowSize ≤ r.wStart ∧ r.wStart ≤ h + st.maxDuration ∧ r.wStart + st.windowSize ≤ r.wEnd := by
   unfold rpcRenew2 rpcRenew2Body at hh
   res_ok' at hh
-  obtain ⟨_, _, hrh, clearing, hclr, evr, _, fp, hfp, ⟨b1, b2⟩, hbase, ⟨a, b, c⟩, hval, _⟩ := hh
+  obtain ⟨_, _, hrh, _, clearing, hclr, evr, _, fp, hfp, ⟨b1, b2⟩, hbase, ⟨a, b, c⟩, hval, _⟩ := hh
   exact renewal2_window_partial hval hn
 
 /-- **C12 (handleRPCRenew).** the same for RHP3: base revenue `RenewContractCost + WriteStoreCost·filesize·extension`
@@ -518,7 +519,7 @@ theorem rpcRenew3_accept_safe {fx : Bool} {rh expUH h : Nat} {e k r : Rev} {st :
     r.filesize = e.filesize ∧ r.root = e.root ∧ e.wEnd ≤ r.wEnd := by
   unfold rpcRenew3 at hh
   res_ok' at hh
-  obtain ⟨hrh, fp, hfp, _, ⟨b1, b2⟩, hbase, ⟨a, b⟩, hval, _, tot, _, rfl⟩ := hh
+  obtain ⟨hrh, _, fp, hfp, _, ⟨b1, b2⟩, hbase, ⟨a, b⟩, hval, _, tot, _, rfl⟩ := hh
   obtain ⟨rfl, rfl⟩ := renewBase_ok hbase
   obtain ⟨vh, mh, void, sf, hle, hburn, hvoid, hb, hmc, rfl, rfl⟩ := validateRenewal3_ok hval
   obtain ⟨x, y, r1, r2, hv, hm⟩ := sf.shape
@@ -531,7 +532,7 @@ theorem rpcRenew3_window_partial {fx : Bool} {rh expUH h : Nat} {e k r : Rev} {s
     h + st.windowSize ≤ r.wStart ∧ r.wStart ≤ h + st.maxDuration ∧ r.wStart + st.windowSize ≤ r.wEnd := by
   unfold rpcRenew3 at hh
   res_ok' at hh
-  obtain ⟨hrh, fp, hfp, _, ⟨b1, b2⟩, hbase, ⟨a, b⟩, hval, _⟩ := hh
+  obtain ⟨hrh, _, fp, hfp, _, ⟨b1, b2⟩, hbase, ⟨a, b⟩, hval, _⟩ := hh
   exact renewal3_window_partial hval hn
 
 /-- the clearing revision accepted on the RHP3 path satisfies the clearing clauses of C07 -/
@@ -541,7 +542,7 @@ theorem rpcRenew3_clearing_safe {fx : Bool} {rh expUH h : Nat} {e k r : Rev} {st
     ∀ c ∈ clearingClauses e k 0, c.2 = true := by
   unfold rpcRenew3 at hh
   res_ok' at hh
-  obtain ⟨hrh, fp, hfp, _⟩ := hh
+  obtain ⟨hrh, _, fp, hfp, _⟩ := hh
   exact validateClearing_accept_safe hfp hU hwf
 
 /-- nothing is recorded (and no host signature is released by `AddContract` / `RenewContract`) unless
@@ -550,19 +551,19 @@ theorem rpcForm2_needs_signature {rh expUH h : Nat} {fc : Rev} {st : Settings} {
     (hh : rpcForm2 rh fc expUH h st sg = .ok rec) : sg.contract = true := by
   unfold rpcForm2 rpcForm2Body at hh
   res_ok' at hh
-  obtain ⟨_, hrh, c, hc, hs, rfl⟩ := hh
+  obtain ⟨_, hrh, _, c, hc, hs, rfl⟩ := hh
   simpa using hs
 theorem rpcRenew2_needs_signatures {fx : Bool} {rh expUH h : Nat} {e r : Rev} {fv : List Nat} {st : Settings} {rec : Recorded}
     (hh : rpcRenew2 fx rh e r fv expUH h st sg = .ok rec) : sg.clearing = true ∧ sg.contract = true := by
   unfold rpcRenew2 rpcRenew2Body at hh
   res_ok' at hh
-  obtain ⟨_, _, hrh, clearing, hclr, evr, _, fp, hfp, ⟨b1, b2⟩, hbase, ⟨a, b, c⟩, hval, storage, _, h1, h2, _⟩ := hh
+  obtain ⟨_, _, hrh, _, clearing, hclr, evr, _, fp, hfp, ⟨b1, b2⟩, hbase, ⟨a, b, c⟩, hval, storage, _, h1, h2, _⟩ := hh
   exact ⟨by simpa using h1, by simpa using h2⟩
 theorem rpcRenew3_needs_signatures {fx : Bool} {rh expUH h : Nat} {e k r : Rev} {st : Settings} {rec : Recorded}
     (hh : rpcRenew3 fx rh e k r expUH h st sg = .ok rec) : sg.clearing = true ∧ sg.contract = true := by
   unfold rpcRenew3 at hh
   res_ok' at hh
-  obtain ⟨hrh, fp, hfp, h1, ⟨b1, b2⟩, hbase, ⟨a, b⟩, hval, h2, _⟩ := hh
+  obtain ⟨hrh, _, fp, hfp, h1, ⟨b1, b2⟩, hbase, ⟨a, b⟩, hval, h2, _⟩ := hh
   exact ⟨by simpa using h1, by simpa using h2⟩
 
 /-! no_panic of the handler paths -/
@@ -585,6 +586,7 @@ theorem rpcRenew2_noPanic {fx : Bool} {rh expUH h : Nat} {e r : Rev} {fv : List 
       st.contractPrice + baseCost st.storagePrice e r + baseCost st.collateral e r < C128)) :
     NoPanic (rpcRenew2 fx rh e r fv expUH h st sg) := by
   unfold rpcRenew2 rpcRenew2Body
+  refine NoPanic.bind (check_noPanic _ _) fun _ _ => ?_
   refine NoPanic.bind (check_noPanic _ _) fun _ _ => ?_
   refine NoPanic.bind (check_noPanic _ _) fun _ _ => ?_
   refine NoPanic.bind (check_noPanic _ _) fun _ _ => ?_
@@ -614,6 +616,7 @@ theorem rpcRenew3_noPanic {fx : Bool} {rh expUH h : Nat} {e k r : Rev} {st : Set
       st.contractPrice + (st.renewCost + baseCost st.storagePrice e r) < C128)) :
     NoPanic (rpcRenew3 fx rh e k r expUH h st sg) := by
   unfold rpcRenew3
+  refine NoPanic.bind (check_noPanic _ _) fun _ _ => ?_
   refine NoPanic.bind (check_noPanic _ _) fun _ _ => ?_
   refine NoPanic.bind (validateClearing_noPanic (H.imp id (·.1))) fun fp hfp => ?_
   have hfpLe := clearing_payment_le hfp
@@ -660,14 +663,14 @@ def exClearing : Rev :=
 `StoragePrice.Mul64(Filesize).Mul64(extension)` overflows before `validateContractRenewal` would have
 rejected the wrong file size (corpus/revision/c12_witnesses.trace) -/
 theorem rpcRenew2_panics_base_overflow :
-    rpcRenew2 false U64 exExisting { exRenewal with filesize := U64 - 1, wEnd := U64 - 1 } [4999, 701] 10 1000 exSettings ⟨true, true⟩
+    rpcRenew2 false U64 exExisting { exRenewal with filesize := U64 - 1, wEnd := maxStorable } [4999, 701] 10 1000 exSettings ⟨true, true⟩
       = .panic .baseStorageMul2 := by decide +kernel
 theorem rpcRenew3_panics_base_overflow :
     rpcRenew3 false U64 exExisting exClearing
-      { exRenewal with filesize := U64 - 1, wEnd := U64 - 1 } 10 1000 exSettings ⟨true, true⟩ = .panic .baseStorageMul2 := by
+      { exRenewal with filesize := U64 - 1, wEnd := maxStorable } 10 1000 exSettings ⟨true, true⟩ = .panic .baseStorageMul2 := by
   decide +kernel
 /-- after the repair both are plain rejections -/
-example : rpcRenew2 true U64 exExisting { exRenewal with filesize := U64 - 1, wEnd := U64 - 1 } [4999, 701] 10 1000 exSettings ⟨true, true⟩
+example : rpcRenew2 true U64 exExisting { exRenewal with filesize := U64 - 1, wEnd := maxStorable } [4999, 701] 10 1000 exSettings ⟨true, true⟩
     = .reject .costOverflow := by decide +kernel
 
 example : BaseSafe 200 3 2 exExisting exRenewal := by intro _; decide +kernel
@@ -707,7 +710,7 @@ theorem rpcForm2Body_ok {rh expUH hv : Nat} {fc : Rev} {st : Settings} {rec : Re
     fc.wStart < rh ∧ (∀ cl ∈ contractClauses fc hv st 0 rec.locked, cl.2 = true) ∧ formRecorded fc st = some rec := by
   unfold rpcForm2Body at hh
   res_ok' at hh
-  obtain ⟨hrh, c, hc, _, rfl⟩ := hh
+  obtain ⟨hrh, _, c, hc, _, rfl⟩ := hh
   have := formation_accept_safe hc
   exact ⟨hrh, this.1, this.2.1⟩
 
@@ -726,7 +729,7 @@ theorem rpcForm2_window_current_partial {rh expUH h1 h2 : Nat} {fc : Rev} {st : 
     h2 + st.windowSize ≤ fc.wStart ∧ fc.wStart ≤ h2 + st.maxDuration ∧ fc.wStart + st.windowSize ≤ fc.wEnd := by
   unfold rpcForm2At rpcForm2Body at hh
   res_ok' at hh
-  obtain ⟨_, _, c, hc, _⟩ := hh
+  obtain ⟨_, _, _, c, hc, _⟩ := hh
   exact formation_window_partial (by simpa using hc) hn
 
 theorem rpcRenew2Body_ok {fx : Bool} {rh expUH hv : Nat} {e r : Rev} {fv : List Nat} {st : Settings} {rec : Recorded}
@@ -736,7 +739,7 @@ theorem rpcRenew2Body_ok {fx : Bool} {rh expUH hv : Nat} {e r : Rev} {fv : List 
   -- the body with the rpcLoop check in front is `rpcRenew2` at a height below the require height … or not; prove directly
   unfold rpcRenew2Body at hh
   res_ok' at hh
-  obtain ⟨_, hrh, clearing, hclr, evr, _, fp, hfp, ⟨b1, b2⟩, hbase, ⟨a, b, c⟩, hval, storage, ⟨hsub, rfl⟩, _, _, tot, _, rfl⟩ := hh
+  obtain ⟨_, hrh, _, clearing, hclr, evr, _, fp, hfp, ⟨b1, b2⟩, hbase, ⟨a, b, c⟩, hval, storage, ⟨hsub, rfl⟩, _, _, tot, _, rfl⟩ := hh
   obtain ⟨rfl, rfl⟩ := renewBase_ok hbase
   obtain ⟨vh, mh, void, sf, hle, hburn, hvoid, hb, hmc, rfl, rfl, rfl⟩ := validateRenewal2_ok hval
   obtain ⟨x, y, r1, r2, hv', hm⟩ := sf.shape
@@ -790,6 +793,38 @@ theorem rpcRenew3_pricetable_height_witness :
     (rpcRenew3 false U64 exExisting exClearing exRenewal 10 1000 { exSettings with maxCollateral := 5000000 } ⟨true, true⟩).isOk = true ∧
     ("window_start_not_too_soon", false) ∈
       contractClauses exRenewal 1001 { exSettings with maxCollateral := 5000000 } (7 + baseCost 3 exExisting exRenewal) 1001521 := by
+  decide +kernel
+
+/-! ### the proof window end must be storable (heights are stored as int64; /repo c506708) -/
+
+/-- **an accepted formation has a window end the contract store can record** -/
+theorem rpcForm2_window_end_storable {b : Bool} {rh expUH h1 h2 : Nat} {fc : Rev} {st : Settings} {rec : Recorded}
+    (hh : rpcForm2At b rh fc expUH h1 h2 st sg = .ok rec) : fc.wEnd ≤ maxStorable := by
+  unfold rpcForm2At rpcForm2Body at hh
+  res_ok' at hh
+  exact hh.2.2.1
+
+theorem rpcRenew2_window_end_storable {fx b : Bool} {rh expUH h1 h2 : Nat} {e r : Rev} {fv : List Nat} {st : Settings}
+    {rec : Recorded} (hh : rpcRenew2At fx b rh e r fv expUH h1 h2 st sg = .ok rec) : r.wEnd ≤ maxStorable := by
+  unfold rpcRenew2At rpcRenew2Body at hh
+  res_ok' at hh
+  exact hh.2.2.2.1
+
+theorem rpcRenew3_window_end_storable {fx : Bool} {rh expUH h : Nat} {e k r : Rev} {st : Settings} {rec : Recorded}
+    (hh : rpcRenew3 fx rh e k r expUH h st sg = .ok rec) : r.wEnd ≤ maxStorable := by
+  unfold rpcRenew3 at hh
+  res_ok' at hh
+  exact hh.2.1
+
+/-- without the guard: the validators themselves accept a window end of 2^64−1 (nothing bounds it from above),
+the handlers refuse it; 2^63−1 is still accepted -/
+theorem window_end_guard_witness :
+    validateFormation { exForm with wEnd := U64 - 1 } 10 1000 exSettings = .ok 500 ∧
+    rpcForm2 U64 { exForm with wEnd := U64 - 1 } 10 1000 exSettings ⟨true, true⟩ = .reject .windowEndUnstorable ∧
+    rpcForm2 U64 { exForm with wEnd := maxStorable + 1 } 10 1000 exSettings ⟨true, true⟩ = .reject .windowEndUnstorable ∧
+    (rpcForm2 U64 { exForm with wEnd := maxStorable } 10 1000 exSettings ⟨true, true⟩).isOk = true ∧
+    rpcRenew3 true U64 exExisting exClearing { exRenewal with wEnd := U64 - 1 } 10 1000 exSettings ⟨true, true⟩
+      = .reject .windowEndUnstorable := by
   decide +kernel
 
 end Hostd.Revision
